@@ -991,6 +991,49 @@ M("c12-resolve-stops-after-first-builder", "C12", ["C12.allproviders"],
                 break
 """))
 
+M("c08-f31-reintroduced", ["C08"], ["C08.identity"],
+  E(SP, "    decorated.unique_key = repr(constant)  # type: ignore[attr-defined]", "    decorated.unique_key = str(constant)  # type: ignore[attr-defined]"))
+M("c07-f32-reintroduced", ["C07", "C16"], ["C07.cachekey", "C16.cachekey"],
+  E(SIG, """    if isinstance(method, partial):
+        # the signature of a partial also depends on the arguments it already binds
+        bound = (len(method.args), tuple(sorted(method.keywords)))
+        return hash((_make_key(method.func), bound))
+""", """    method = method.func if isinstance(method, partial) else method
+"""))
+M("c07-partial-key-ignores-keywords", ["C07", "C16"], ["C07.cachekey", "C16.cachekey"],
+  E(SIG, "        bound = (len(method.args), tuple(sorted(method.keywords)))", "        bound = len(method.args)"))
+M("c17-event-deepcopy-returns-self", ["C17", "C13"], ["C17.carry", "C13.bind"],
+  E(EV, """    def is_same_event(self,""", """    def __deepcopy__(self, memo):
+        return self
+
+    def is_same_event(self,"""))
+M("c15-ior-in-place", ["C15"], ["C15.or"],
+  E(TL, """    def __or__(self,""", """    def __ior__(self, other):
+        return self.add_transitions(other)
+
+    def __or__(self,"""))
+M("c18-node-builder-lru-cache", ["C18", "C16"], ["C18.highlight", "C16.inventory"],
+  E(DIA, """    def _state_as_node(self, state):""", """    @functools.lru_cache(maxsize=None)
+    def _state_as_node(self, state):"""),
+  E(DIA, "import importlib\n", "import functools\nimport importlib\n"))
+M("c10-states-map-id-alias", ["C10"], ["C10.access"],
+  E(FAC, """        cls.states_map[state.value] = state
+""", """        cls.states_map[state.value] = state
+        cls.states_map.setdefault(state.id, state)
+"""))
+M("c03-put-override-filters", ["C03", "C01"], ["C03.put", "C01.none"],
+  E(SYNC, """    def activate_initial_state(self):""", """    def put(self, trigger_data):
+        if self.sm.allow_event_without_transition and not self.sm.current_state.transitions.match(trigger_data.event):
+            return
+        super().put(trigger_data)
+
+    def activate_initial_state(self):"""))
+B("b-put-override-delegates", ["C03", "C01", "C06"],
+  E(SYNC, """    def activate_initial_state(self):""", """    def put(self, trigger_data):
+        \"\"\"Queue the trigger (see BaseEngine.put).\"\"\"
+        return super().put(trigger_data)
+
+    def activate_initial_state(self):"""))
 M("c07-f23-reintroduced", ["C07", "C16"], ["C07.cachekey", "C16.cachekey"],
   E("statemachine/signature.py", """                method.__code__,
                 wrapped_code,
